@@ -170,7 +170,7 @@ def matmul_dense_mismatch(ob, d, k, nb):
 
 # ---- methods
 @scenario('C18', 'method.misuse', 'torchtt._tt_base.TT', quick=[dict(case=c) for c in (
-        't_on_tensor', 'sum_out_of_range', 'sum_negative', 'sum_bad_type', 'mprod_on_ttm', 'mprod_size', 'mprod_bad_args', 'mprod_mode_range',
+        't_on_tensor', 'sum_out_of_range', 'sum_list_out_of_range', 'sum_list_high_first', 'sum_ttm_out_of_range', 'sum_negative', 'sum_bad_type', 'mprod_on_ttm', 'mprod_size', 'mprod_bad_args', 'mprod_mode_range',
         'qtt_not_list', 'qtt_shape', 'getitem_too_few', 'getitem_too_many', 'getitem_int_range', 'getitem_float', 'getitem_two_ellipsis',
         'getitem_int_on_order2', 'getitem_slice_on_order2', 'getitem_ttm_ellipsis', 'getitem_ttm_mixed', 'set_core_index', 'set_core_rank',
         'fast_matvec_not_tt', 'fast_matvec_kinds', 'fast_matvec_shape', 'fast_matvec_order', 'mprod_list_len', 'getitem_ttm_odd', 'to_qtt_not_power', 'to_qtt_ttm_rect', 'ctor_bad_source', 'getitem_str')],
@@ -184,6 +184,12 @@ def method_misuse(ob, case):
         ob.ret = call(ob.tt('x', 2), 't')
     elif case == 'sum_out_of_range':
         ob.ret = call(ob.tt('x', 3), 'sum', 7)
+    elif case == 'sum_list_out_of_range':
+        ob.ret = call(ob.tt('x', 3), 'sum', [0, 3])          # a valid axis together with an axis >= d
+    elif case == 'sum_list_high_first':
+        ob.ret = call(ob.tt('x', 3), 'sum', [5, 1])
+    elif case == 'sum_ttm_out_of_range':
+        ob.ret = call(ob.tt('x', 2, ttm=True), 'sum', [1, 2])
     elif case == 'sum_negative':
         ob.ret = call(ob.tt('x', 3), 'sum', [-5])
     elif case == 'sum_bad_type':
@@ -281,7 +287,7 @@ def method_misuse(ob, case):
 
 # ---- module-level functions
 @scenario('C18', 'function.misuse', 'torchtt._extras', quick=[dict(case=c) for c in (
-        'kron_kinds', 'kron_bad', 'dot_not_tt', 'dot_ttm', 'dot_size', 'dot_order', 'dot_axis_order', 'dot_axis_size', 'bilinear_types', 'bilinear_kinds', 'bilinear_shape',
+        'kron_kinds', 'kron_bad', 'dot_not_tt', 'dot_ttm', 'dot_size', 'dot_order', 'dot_axis_order', 'dot_axis_size', 'dot_axis_range', 'bilinear_types', 'bilinear_kinds', 'bilinear_shape',
         'cat_ttm', 'cat_size_before', 'cat_size_after', 'cat_size_both', 'cat_order', 'pad_too_many', 'diag_not_tt', 'permute_not_tt', 'permute_len', 'permute_dup',
         'permute_range', 'reshape_count', 'reshape_ttm_rows', 'reshape_ttm_cols', 'reshape_ttm_swap', 'reshape_ttm_second', 'save_not_tt', 'random_bad_R', 'random_len_R', 'zeros_not_list', 'ones_not_list', 'amen_mv_types', 'amen_mv_kinds', 'amen_mv_shape',
         'amen_solve_types', 'amen_solve_kinds', 'amen_solve_square', 'amen_solve_shape', 'riemann_kinds',
@@ -316,6 +322,10 @@ def function_misuse(ob, case):
         a, b = ob.tt('a', 3), ob.tt('b', 1)
         mismatch(ex, a.N_[1], b.N_[0])
         ob.ret = ex.call(E('dot'), [a, b, [1]])
+    elif case == 'dot_axis_range':
+        a = ob.tt('a', 3)
+        b = ob.tt('b', 2, N=a.N_[:2])
+        ob.ret = ex.call(E('dot'), [a, b, [0, 1, 6]])
     elif case == 'bilinear_types':
         A = ob.tt('A', 2, ttm=True)
         ob.ret = ex.call(E('bilinear_form'), [3, A, ob.tt('y', 2, N=A.N_)])
